@@ -13,7 +13,31 @@ import (
 // serialisation of blocks, supplements and states into the model's token protocol
 // (the parsers are in coq/Extract/Api.v, section "ledger")
 
-type tw struct{ t []string }
+type tw struct {
+	t     []string
+	kinds map[string]int // every ID the block mentions, with the kind of element it names (Ledger/Kinds.v declsB)
+	mixed bool           // some ID was declared with two kinds
+}
+
+const (
+	kSC = iota + 1
+	kSF
+	kFC
+	kV2
+	kAT
+)
+
+func (w *tw) decl(id []byte, kind int) {
+	if w.kinds == nil {
+		w.kinds = map[string]int{}
+	}
+	if k, ok := w.kinds[string(id)]; ok && k != kind {
+		w.mixed = true
+	}
+	if _, ok := w.kinds[string(id)]; !ok {
+		w.kinds[string(id)] = kind
+	}
+}
 
 func (w *tw) z(u uint64)            { w.t = append(w.t, hx(u)) }
 func (w *tw) i(n int)               { w.t = append(w.t, hx(uint64(n))) }
@@ -211,6 +235,7 @@ func txn1Toks(w *tw, vc *vcollector, cs consensus.State, txn types.Transaction) 
 	w.i(len(txn.SiacoinInputs))
 	for _, in := range txn.SiacoinInputs {
 		w.b(in.ParentID[:])
+		w.decl(in.ParentID[:], kSC)
 		w.z(in.UnlockConditions.Timelock)
 		uh := in.UnlockConditions.UnlockHash()
 		w.b(uh[:])
@@ -223,11 +248,13 @@ func txn1Toks(w *tw, vc *vcollector, cs consensus.State, txn types.Transaction) 
 	for i, o := range txn.SiacoinOutputs {
 		oid := txn.SiacoinOutputID(i)
 		w.b(oid[:])
+		w.decl(oid[:], kSC)
 		w.sco(o)
 	}
 	w.i(len(txn.SiafundInputs))
 	for _, in := range txn.SiafundInputs {
 		w.b(in.ParentID[:])
+		w.decl(in.ParentID[:], kSF)
 		w.z(in.UnlockConditions.Timelock)
 		uh := in.UnlockConditions.UnlockHash()
 		w.b(uh[:])
@@ -235,6 +262,7 @@ func txn1Toks(w *tw, vc *vcollector, cs consensus.State, txn types.Transaction) 
 		w.b(in.ClaimAddress[:])
 		cid := in.ParentID.ClaimOutputID()
 		w.b(cid[:])
+		w.decl(cid[:], kSC)
 		for _, k := range in.UnlockConditions.PublicKeys {
 			vc.key(k.Key)
 		}
@@ -243,6 +271,7 @@ func txn1Toks(w *tw, vc *vcollector, cs consensus.State, txn types.Transaction) 
 	for i, o := range txn.SiafundOutputs {
 		oid := txn.SiafundOutputID(i)
 		w.b(oid[:])
+		w.decl(oid[:], kSF)
 		w.z(o.Value)
 		w.b(o.Address[:])
 	}
@@ -250,11 +279,13 @@ func txn1Toks(w *tw, vc *vcollector, cs consensus.State, txn types.Transaction) 
 	for i, fc := range txn.FileContracts {
 		fid := txn.FileContractID(i)
 		w.b(fid[:])
+		w.decl(fid[:], kFC)
 		w.fc1(fc)
 	}
 	w.i(len(txn.FileContractRevisions))
 	for _, r := range txn.FileContractRevisions {
 		w.b(r.ParentID[:])
+		w.decl(r.ParentID[:], kFC)
 		w.z(r.UnlockConditions.Timelock)
 		uh := r.UnlockConditions.UnlockHash()
 		w.b(uh[:])
@@ -267,6 +298,7 @@ func txn1Toks(w *tw, vc *vcollector, cs consensus.State, txn types.Transaction) 
 	w.i(len(txn.StorageProofs))
 	for _, sp := range txn.StorageProofs {
 		w.b(sp.ParentID[:])
+		w.decl(sp.ParentID[:], kFC)
 		w.b(sp.Leaf[:])
 		w.hashes(sp.Proof)
 		// valid output IDs: as many as any contract could have; the model zips them with the contract's outputs
@@ -274,6 +306,7 @@ func txn1Toks(w *tw, vc *vcollector, cs consensus.State, txn types.Transaction) 
 		for i := 0; i < 8; i++ {
 			oid := sp.ParentID.ValidOutputID(i)
 			w.b(oid[:])
+			w.decl(oid[:], kSC)
 		}
 	}
 	w.i(len(txn.MinerFees))
@@ -359,6 +392,7 @@ func txn2Toks(w *tw, vc *vcollector, cs consensus.State, txn types.V2Transaction
 	for _, in := range txn.SiacoinInputs {
 		w.pres(in.Parent.StateElement, ok(in.Parent.StateElement))
 		w.sce(in.Parent)
+		w.decl(in.Parent.ID[:], kSC)
 		satisfiedToks(w, in.SatisfiedPolicy)
 		vc.satisfied(sh, in.SatisfiedPolicy)
 	}
@@ -366,15 +400,18 @@ func txn2Toks(w *tw, vc *vcollector, cs consensus.State, txn types.V2Transaction
 	for i, o := range txn.SiacoinOutputs {
 		oid := txn.SiacoinOutputID(txid, i)
 		w.b(oid[:])
+		w.decl(oid[:], kSC)
 		w.sco(o)
 	}
 	w.i(len(txn.SiafundInputs))
 	for _, in := range txn.SiafundInputs {
 		w.pres(in.Parent.StateElement, ok(in.Parent.StateElement))
 		w.sfe(in.Parent)
+		w.decl(in.Parent.ID[:], kSF)
 		w.b(in.ClaimAddress[:])
 		cid := in.Parent.ID.V2ClaimOutputID()
 		w.b(cid[:])
+		w.decl(cid[:], kSC)
 		satisfiedToks(w, in.SatisfiedPolicy)
 		vc.satisfied(sh, in.SatisfiedPolicy)
 	}
@@ -382,6 +419,7 @@ func txn2Toks(w *tw, vc *vcollector, cs consensus.State, txn types.V2Transaction
 	for i, o := range txn.SiafundOutputs {
 		oid := txn.SiafundOutputID(txid, i)
 		w.b(oid[:])
+		w.decl(oid[:], kSF)
 		w.z(o.Value)
 		w.b(o.Address[:])
 	}
@@ -396,6 +434,7 @@ func txn2Toks(w *tw, vc *vcollector, cs consensus.State, txn types.V2Transaction
 	for i, fc := range txn.FileContracts {
 		fid := txn.V2FileContractID(txid, i)
 		w.b(fid[:])
+		w.decl(fid[:], kV2)
 		w.fc2(cs, fc)
 		contractKeys(fc)
 	}
@@ -403,6 +442,7 @@ func txn2Toks(w *tw, vc *vcollector, cs consensus.State, txn types.V2Transaction
 	for _, r := range txn.FileContractRevisions {
 		w.pres(r.Parent.StateElement, ok(r.Parent.StateElement))
 		w.fce2(cs, r.Parent)
+		w.decl(r.Parent.ID[:], kV2)
 		w.fc2(cs, r.Revision)
 		contractKeys(r.Parent.V2FileContract)
 		contractKeys(r.Revision)
@@ -411,6 +451,7 @@ func txn2Toks(w *tw, vc *vcollector, cs consensus.State, txn types.V2Transaction
 	for _, r := range txn.FileContractResolutions {
 		w.pres(r.Parent.StateElement, ok(r.Parent.StateElement))
 		w.fce2(cs, r.Parent)
+		w.decl(r.Parent.ID[:], kV2)
 		contractKeys(r.Parent.V2FileContract)
 		switch res := r.Resolution.(type) {
 		case *types.V2FileContractRenewal:
@@ -426,6 +467,7 @@ func txn2Toks(w *tw, vc *vcollector, cs consensus.State, txn types.V2Transaction
 			w.b(rh[:])
 			nid := r.Parent.ID.V2RenewalID()
 			w.b(nid[:])
+			w.decl(nid[:], kV2)
 			contractKeys(res.NewContract)
 			vc.pair(rh, res.RenterSignature[:])
 			vc.pair(rh, res.HostSignature[:])
@@ -442,11 +484,14 @@ func txn2Toks(w *tw, vc *vcollector, cs consensus.State, txn types.V2Transaction
 		ri, hi := r.Parent.ID.V2RenterOutputID(), r.Parent.ID.V2HostOutputID()
 		w.b(ri[:])
 		w.b(hi[:])
+		w.decl(ri[:], kSC)
+		w.decl(hi[:], kSC)
 	}
 	w.i(len(txn.Attestations))
 	for i, a := range txn.Attestations {
 		aid := txn.AttestationID(txid, i)
 		w.b(aid[:])
+		w.decl(aid[:], kAT)
 		w.bo(len(a.Key) == 0)
 		w.b(a.PublicKey[:])
 		w.b(a.Signature[:])
@@ -486,7 +531,7 @@ func medianSeconds(cs consensus.State) int64 {
 }
 
 // blockToks renders one block with its supplement; nextMedian is the median timestamp of the state after it
-func blockToks(cs consensus.State, b types.Block, bs consensus.V1BlockSupplement, headerCode int, nextMedian int64, ok func(types.StateElement) bool) []string {
+func blockToks(cs consensus.State, b types.Block, bs consensus.V1BlockSupplement, headerCode int, nextMedian int64, ok func(types.StateElement) bool) ([]string, bool) {
 	w := &tw{}
 	vc := newVC()
 	bid := b.ID()
@@ -508,10 +553,12 @@ func blockToks(cs consensus.State, b types.Block, bs consensus.V1BlockSupplement
 	for i, mp := range b.MinerPayouts {
 		oid := bid.MinerOutputID(i)
 		w.b(oid[:])
+		w.decl(oid[:], kSC)
 		w.sco(mp)
 	}
 	fid := bid.FoundationOutputID()
 	w.b(fid[:])
+	w.decl(fid[:], kSC)
 	w.i(len(b.Transactions))
 	for _, txn := range b.Transactions {
 		txn1Toks(w, vc, cs, txn)
@@ -529,10 +576,12 @@ func blockToks(cs consensus.State, b types.Block, bs consensus.V1BlockSupplement
 	for _, e := range bs.ExpiringFileContracts {
 		w.pres(e.StateElement, ok(e.StateElement))
 		w.fce1(e)
+		w.decl(e.ID[:], kFC)
 		w.i(8)
 		for i := 0; i < 8; i++ {
 			oid := e.ID.MissedOutputID(i)
 			w.b(oid[:])
+			w.decl(oid[:], kSC)
 		}
 	}
 	if nextMedian < 0 {
@@ -541,7 +590,7 @@ func blockToks(cs consensus.State, b types.Block, bs consensus.V1BlockSupplement
 		w.z(uint64(nextMedian))
 	}
 	vc.toks(w)
-	return w.t
+	return w.t, !w.mixed
 }
 
 func netLToks(n *consensus.Network) []string {
